@@ -10,12 +10,6 @@ import (
 	"google.golang.org/grpc"
 )
 
-func zzBody(v byte) *goatorepo.Body {
-	if v == 0 {
-		return &goatorepo.Body{}
-	}
-	return &goatorepo.Body{Data: []byte{8, v, 0, 0, 0}}
-}
 
 // H_C11_server_abandon: a streaming handler returns after consuming k of the n bodies the
 // peer sends; the peer keeps sending the rest and a trailer, then issues a probe unary
